@@ -13,10 +13,16 @@ typedef struct {
     uint64_t mask[RF_MAXC];              /* bit r set => row r null (opt columns) */
     int npages[RF_MAXC]; int page_levels[RF_MAXC][8];   /* 0 pages => single page */
     int enc[RF_MAXC];                    /* ENC_PLAIN / ENC_PLAIN_DICT / ENC_RLE_DICT / ... */
+    int ctx[RF_MAXC];                    /* nesting context of the leaf (RF_CTX_*); 0 = flat, repetition from .opt */
+    const int16_t* defs[RF_MAXC]; const int16_t* reps[RF_MAXC];   /* explicit levels (N entries) for nested contexts */
+    const ref_stats* chunk_stats[RF_MAXC]; const ref_stats* page_stats[RF_MAXC];
     int codec; bool crc; int level_form, index_form, index_bw_extra; int pattern;
     bool dict_offset_present; bool data_offset_at_dict; bool v2; int level_encoding;
     ref_file_layout fl;
 } rfile_t;
+/* nesting contexts: chain of groups above the leaf */
+enum { RF_CTX_FLAT = 0, RF_CTX_OPTGROUP_REQ, RF_CTX_OPTGROUP_OPT, RF_CTX_REPEATED_LEAF, RF_CTX_LIST3, RF_CTX_REP_REP, RF_CTX_REQGROUP_OPTGROUP_REP, RF_NCTX };
+void rf_ctx_levels(int ctx, int opt, int* max_def, int* max_rep, int thresholds[3]);   /* thresholds[k-1] = def level at which repeated node k is non-empty */
 void rf_value(int ptype, int tlen, int ci, int row, int pattern, uint8_t* out, ref_str* s);
 void rf_column(ref_arena* a, const rfile_t* f, int ci, int rg, ref_coldata* out);
 /* returns 0 and fills img/pages; cols_out[rg*ncols+ci] = expected column data */
